@@ -85,6 +85,10 @@ structure Cfg where
   /-- PBSPro: the `exec_vnode` attribute `qstat -f` reports, as chunks of (vnode id, ncpus) slices;
       `none`: qstat is not available -/
   execVnode    : Option (List (List (Nat × Nat))) := none
+  /-- Slurm: `$SLURM_GPUS_ON_NODE` (none: unset or empty) and the number of ids in
+      `$SLURM_JOB_GPUS` / `$SLURM_STEP_GPUS` / `$GPU_DEVICE_ORDINAL` (0: none of them set) -/
+  envGpus      : Option Nat := none
+  envGpuIds    : Nat := 0
 deriving Repr
 
 inductive Kind where
@@ -98,6 +102,14 @@ def pbsVnodes (chunks : List (List (Nat × Nat))) : Except Err (List Nat × Nat)
   | [n] => .ok (Launch.hostSet (chunks.flatten.map (·.1)), n)
   | []  => .error .value
   | _   => .error .runtime
+
+/-- Slurm: the configured `gpus_per_node` if there is one, else what the batch environment reports -/
+def envGpn (c : Cfg) : Nat :=
+  match c.envGpus with
+  | some g => g
+  | none   => c.envGpuIds
+
+def slurmGpn (c : Cfg) : Nat := if c.gpn ≠ 0 then c.gpn else envGpn c
 
 /-- result of the RM specific `init_from_scratch`: node list and cores_per_node -/
 def initKind (k : Kind) (c : Cfg) (ls : List Line) (hosts : List Name) (envCpus : Option Nat)
@@ -132,7 +144,7 @@ def initKind (k : Kind) (c : Cfg) (ls : List Line) (hosts : List Name) (envCpus 
   | .slurm =>
     match (if c.cpn ≠ 0 then some c.cpn else envCpus) with
     | none   => .error .runtime
-    | some n => .ok (getNodeList (hosts.map (fun h => (h, n))) c.gpn, n)
+    | some n => .ok (getNodeList (hosts.map (fun h => (h, n))) (slurmGpn c), n)
   | .fork =>
     -- fake_resources: n identical 'localhost' nodes
     if c.requestedNodes = 0 ∧ c.requestedGpus ≠ 0 ∧ c.gpn = 0 then .error .runtime   -- ZeroDivisionError
@@ -222,6 +234,7 @@ def initRM (k : Kind) (c : Cfg) (ls : List Line) (hosts : List Name) (envCpus : 
   | .ok (nodes, cpn) =>
     if nodes = [] then .error .assertion
     else if k = .fork then finish { c with requestedNodes := forkRequested c cpn } nodes cpn reach
+    else if k = .slurm then finish { c with gpn := slurmGpn c } nodes cpn reach
     else finish c nodes cpn reach
 
 end RPVerif.RM
